@@ -448,6 +448,21 @@ impl private::StoreCallbacks<Annotation> for AnnotationStore {
                 };
             }
 
+            // an annotation may name the same target more than once (e.g. the same text in two
+            // subselectors), the reverse indices must list the annotation only once per target
+            target_annotations.sort_unstable();
+            target_annotations.dedup();
+            target_meta_resources.sort_unstable();
+            target_meta_resources.dedup();
+            target_meta_datasets.sort_unstable();
+            target_meta_datasets.dedup();
+            target_meta_keys.sort_unstable();
+            target_meta_keys.dedup();
+            target_meta_data.sort_unstable();
+            target_meta_data.dedup();
+            extend_textrelationmap.sort_unstable();
+            extend_textrelationmap.dedup();
+
             if self.config.annotation_annotation_map {
                 self.annotation_annotation_map
                     .extend(target_annotations.into_iter());
